@@ -134,7 +134,7 @@ ENC_RULE = ("generic reflection harness: 'api' = random VALID API histories (eve
             "API-built values and on self-consistent packet literals (IPv6 with 8..2048-byte routing / hop-by-hop headers), 'embedw' = the same on packet headers "
             "decoded from the independent encoder's wire images. Non-trivial = the encoder produced bytes.")
 PROPS["C01"] = {
-    "modules": ["C01", "C01b"],
+    "modules": ["C01", "C01b", "C01c"],
     "families": ["OF"], "ops": "api,apix,enc,prog", "gen_deps": [],
     "rule": ENC_RULE, "trivial_outputs": ["panic", "err"],
     "level_text": "Theorems (model): constructors stamp version 4 / their type code; for flow-mods of every command and content the first four bytes are (version, type, reported size) — the header length equals the size the message reports; C06 relates reported size to bytes. Oracle on implementation bytes for every generated API-built top-level message: version 4, type code of the kind / constructor, header length = len(bytes) = reported size before and after encoding. Theorems for the other top-level kinds are pending (their framing is decided by the oracle + correspondence only).",
@@ -280,6 +280,10 @@ PROPS["C05"]["level_text"] += (" C05d (40 theorems, with an inventory of every k
     "(unknown experimenter / multipart types never parse, a bare hello element header loses what follows it, packet-in and hello swallow bytes behind the message).")
 PROPS["C06"]["level_text"] += (" C06d (80 theorems): for 70 kinds with a constant, stored or header-computed size the model's Len() equals the definition regenerated from the current Go Len() body (tie T1) for every value.")
 PROPS["C03"]["level_text"] += (" C03d (40 theorems): for 37 fixed-layout kinds (headers, the standard actions, InstrMeter, 18 scalar match payloads, NXActionHeader/Conjunction, ControllerID, TLVTableMap, BundleControl) the model's encoder returns exactly the bytes of the Go MarshalBinary body regenerated statement by statement on this run (tie T1), for every field value.")
+PROPS["C01"]["level_text"] += (" C01c (API histories): flowMod_history_sent / groupMod_history_sent — for every xid, command and scalar field, any match that encodes, "
+    "any list of instructions (apply/write-actions built by any AddAction list; goto-table, write-metadata, meter) added by AddInstruction / buckets built by NewBucket + "
+    "AddAction added by AddBucket: every call succeeds, MarshalBinary succeeds, and below 64 KiB the message is framed (version 4, type code, header length = bytes = Len()); "
+    "packet-out, hello and bundle-add histories are framed whenever the encoder returns; the constructors of 14 action and 3 instruction kinds are shown to encode for every argument.")
 PROPS["C02"]["level_text"] += (" C02c: the REAL specification walker (Spec.walk…, incl. minimum lengths, zero padding, alignment, type codes) accepts the model's "
     "encoding and returns one subtree per child, for every hello (any list of version-bitmap elements; whole message through Spec.walk), TLV-table-mod (any list "
     "of maps), any list of bundle properties; 20 action kinds (output … set-field with any fixed-width match field, 10 Nicira kinds incl. note and controller) through the "
